@@ -240,7 +240,8 @@ fn oracle_c03(env: &Env, txs: &[Transaction], acc: &mut Acc) -> Vec<Obs> {
 // ---------------------------------------------------------------------------------------------- C10
 fn split_factor_after(txs: &[Transaction], tk: &str, date: NaiveDate) -> Rat {
     let mut f = Rat::one();
-    for t in txs.iter().filter(|t| t.ticker == tk && t.date >= date) {
+    // (a SPLIT/UNSPLIT dated `date` comes before that day's trades, so it is not "after" them)
+    for t in txs.iter().filter(|t| t.ticker == tk && t.date > date) {
         match &t.operation {
             Operation::Split { ratio } => f *= &Rat::from_dec(*ratio),
             Operation::Unsplit { ratio } => f = &f / &Rat::from_dec(*ratio),
@@ -329,8 +330,12 @@ fn oracle_c10(env: &Env, txs: &[Transaction], acc: &mut Acc) -> Vec<Obs> {
             if txs.iter().any(|t| t.ticker == tk && (t.date == d1 || t.date == d2)) {
                 continue;
             }
-            for ratio in ["2", "2.5", "10"] {
+            for ratio in ["2", "2.5", "10", "3"] {
                 for first_split in [true, false] {
+                    // UNSPLIT 3 first would divide by 3 (no finite decimal): that order is C05-F1 territory
+                    if ratio == "3" && !first_split {
+                        continue;
+                    }
                     let mut l2 = txs.to_vec();
                     if first_split {
                         l2.push(alpha::split(d1, &tk, ratio));
@@ -347,7 +352,17 @@ fn oracle_c10(env: &Env, txs: &[Transaction], acc: &mut Acc) -> Vec<Obs> {
                     match (&out, &o2) {
                         (Outcome::Report(a), Outcome::Report(b2)) => {
                             let d = view::diff_reports(&view::view(b2), &view::view(a), Level::L3, &CmpOpts { label_a: "with-pair", label_b: "original", ..Default::default() });
-                            res.extend(with_ctx(obs_from(d).into_iter().map(|mut o| { o.clause = "pair-changes-report".into(); o }).collect(), ctx, None));
+                            let was_empty = d.is_empty();
+                            res.extend(with_ctx(obs_from(d).into_iter().map(|mut o| { o.clause = "pair-changes-report".into(); o }).collect(), ctx.clone(), None));
+                            // "changes nothing": multiplying by r and dividing by r again is exact in decimal arithmetic,
+                            // so share counts must come back identical, not only within the 1e-9 equality
+                            if was_empty {
+                                for (ha, hb) in a.holdings.iter().zip(b2.holdings.iter()) {
+                                    if ha.ticker == hb.ticker && ha.quantity != hb.quantity {
+                                        res.extend(with_ctx(vec![ob("pair-changes-report", format!("holding {}: {} shares with SPLIT {ratio} / UNSPLIT {ratio} inserted, {} without", ha.ticker, hb.quantity, ha.quantity))], ctx.clone(), None));
+                                    }
+                                }
+                            }
                         }
                         (Outcome::Err { .. }, Outcome::Err { .. }) => {}
                         (Outcome::Report(_), Outcome::Err { msg, .. }) => res.extend(with_ctx(vec![ob("pair-changes-acceptance", format!("accepted ledger is refused once SPLIT {ratio}/UNSPLIT {ratio} is inserted on {d1},{d2}: {msg}"))], ctx, None)),
@@ -802,14 +817,18 @@ fn oracle_c12(env: &Env, prefix: &[Transaction], acc: &mut Acc, max_suffix: usiz
             }
         }
     }
-    for s in seqs {
+    // two layouts of the same extension: the later lines appended after the existing ones, or placed before them
+    // (newest first, or the new year's file named first on the command line)
+    for (s, later_lines_first) in seqs.into_iter().flat_map(|s| [(s.clone(), false), (s, true)]) {
         let suffix = sa.ledger(&s);
-        let mut full = prefix.to_vec();
-        full.extend(suffix.iter().cloned());
+        let full: Vec<Transaction> = if later_lines_first { suffix.iter().cloned().chain(prefix.iter().cloned()).collect() } else { prefix.iter().cloned().chain(suffix.iter().cloned()).collect() };
         acc.validated += 1;
         acc.bump("transitions");
+        if later_lines_first {
+            acc.bump("transitions:later-lines-placed-first");
+        }
         let fout = env.calc(&full);
-        let ctx = json!({"suffix": dsl_text(&suffix)});
+        let ctx = json!({"suffix": dsl_text(&suffix), "layout": if later_lines_first { "later lines first" } else { "appended" }});
         match &fout {
             Outcome::Report(frep) => {
                 acc.bump("extension-accepted");
@@ -1035,6 +1054,7 @@ pub fn c01(tier: Tier) -> i32 {
     };
     explore_alpha("C01", &mut ctx, &env, &profiles::match1(&["2"], false), n_full, &mut acc);
     explore_alpha("C01", &mut ctx, &env, &profiles::match1(&["2", "2.5"], true), n_red, &mut acc);
+    explore_alpha("C01", &mut ctx, &env, &profiles::match1_same_day(&["2"]), n_full - 1, &mut acc);
     let (from, to) = match tier {
         Tier::Quick => (alpha::date(2014, 1, 1), alpha::date(2026, 12, 31)),
         Tier::Thorough => (alpha::date(1900, 4, 6), alpha::date(2100, 12, 31)),
@@ -1063,6 +1083,7 @@ pub fn c02(tier: Tier) -> i32 {
     };
     explore_alpha("C02", &mut ctx, &env, &profiles::match1(&["2"], false), n_full, &mut acc);
     explore_alpha("C02", &mut ctx, &env, &profiles::match1(&["3", "2.5"], true), n_red, &mut acc);
+    explore_alpha("C02", &mut ctx, &env, &profiles::match1_same_day(&["2"]), n_full - 1, &mut acc);
     explore_alpha("C02", &mut ctx, &env, &profiles::two_sec(), n_two, &mut acc);
     explore_alpha("C02", &mut ctx, &env, &crate::perm::fills_alphabet(), n_two, &mut acc);
     explore_list("C02", &mut ctx, &env, "compete", profiles::compete_ledgers(), &mut acc, "competing disposals (see C01)");
@@ -1086,6 +1107,7 @@ pub fn c05(tier: Tier) -> i32 {
     };
     explore_alpha("C05", &mut ctx, &env, &profiles::match1(&["2"], false), n_full, &mut acc);
     explore_alpha("C05", &mut ctx, &env, &profiles::oversell(), n_over, &mut acc);
+    explore_alpha("C05", &mut ctx, &env, &profiles::match1_same_day(&["2"]), n_full - 1, &mut acc);
     explore_alpha("C05", &mut ctx, &env, &profiles::oversell_two_sec(), n_over, &mut acc);
     ctx.require(acc.get("interleaved-line-order-also-run") > 0, "no ledger was run in an interleaved order");
     crate::cli::c05_frontends(&mut ctx, &mut acc);
@@ -1150,6 +1172,7 @@ pub fn c10(tier: Tier) -> i32 {
     };
     explore_alpha("C10", &mut ctx, &env, &profiles::events(&["2", "2.5"]), n_ev, &mut acc);
     explore_alpha("C10", &mut ctx, &env, &profiles::match1(&["2", "4"], true), n_m, &mut acc);
+    explore_alpha("C10", &mut ctx, &env, &profiles::match1_same_day(&["2"]), n_m, &mut acc);
     // a split of one security inside the 30-day window of another
     explore_alpha("C10", &mut ctx, &env, &profiles::two_sec(), n_m, &mut acc);
     ctx.require(acc.get("twin-both-accepted") > 0, "no accepted twin pair");
@@ -1172,6 +1195,7 @@ pub fn c11(tier: Tier) -> i32 {
     explore_alpha("C11", &mut ctx, &env, &profiles::two_sec(), n_two, &mut acc);
     explore_alpha("C11", &mut ctx, &env, &profiles::events_reduced(), n_ev + 2, &mut acc);
     explore_alpha("C11", &mut ctx, &env, &profiles::events_two_adj(), n_ev + 2, &mut acc);
+    explore_alpha("C11", &mut ctx, &env, &profiles::events_fx(), n_ev, &mut acc);
     for k in ["adjustment-differential(position>0)", "adjustment-before-any-acquisition", "dividend-differential", "cancelling-pair-inserted", "bracket:return-absorbable", "bracket:return-exceeds-all-expenditure"] {
         ctx.require(acc.get(k) > 0, &format!("no state exhibited {k}"));
     }
@@ -1193,9 +1217,10 @@ pub fn c12(tier: Tier) -> i32 {
     explore_alpha("C12", &mut ctx, &env, &profiles::match1(&["2"], false), n_m, &mut acc);
     explore_alpha("C12", &mut ctx, &env, &profiles::two_sec(), n_two, &mut acc);
     explore_alpha("C12", &mut ctx, &env, &profiles::events(&["2"]), n_m, &mut acc);
+    explore_alpha("C12", &mut ctx, &env, &profiles::match1_same_day(&["2"]), n_m + 1, &mut acc);
     ctx.require(acc.get("extension-accepted") > 0 && acc.get("extension-rejected") > 0, "extensions must include accepted and rejected ones");
     ctx.bound = json!({"prefix_match1_max_events": n_m, "prefix_two_sec_max_events": n_two, "suffix_max_events": if tier == Tier::Quick { 1 } else { 2 }});
-    ctx.explanation = "Edges prefix -> prefix+suffix of the ledger graph: for every accepted prefix, every sequence of up to k events from {BUY, SELL 3, SELL 99, SPLIT 2, UNSPLIT 2, DIVIDEND} dated T+31, T+32, T+45 (T = last prefix date) is appended and the real calculate() run again: every prefix disposal must reappear with identical leg list, cost and gain; totals of years that gained no disposal are unchanged; a refusal must be caused by (and name) an appended date. transitions = extensions executed.".into();
+    ctx.explanation = "Edges prefix -> prefix+suffix of the ledger graph: for every accepted prefix, every sequence of up to k events from {BUY, SELL 3, SELL 99, SPLIT 2, UNSPLIT 2, DIVIDEND} dated T+31, T+32, T+45 (T = last prefix date) is appended and the real calculate() run again: every prefix disposal must reappear with identical leg list, cost and gain; totals of years that gained no disposal are unchanged; a refusal must be caused by (and name) an appended date. Every extension is run in two layouts (later lines after, or before, the existing lines). transitions = extensions executed.".into();
     ctx.assumptions = vec![STD_ASSUME.into(), "CAPRETURN/ACCUMULATION are never appended (the statement excludes them from continuations); prefixes may contain them".into()];
     ctx.finish(&acc, "model_checking")
 }
